@@ -972,6 +972,88 @@ def charset_level(ctx, H, E):
                             {"path": "read_epub:chapter", "html_body": doc, "visible": visible, "hidden": hidden})
 
 
+# ----------------------------------------------------------------------------- sniffing model correspondence
+class _SpyBytes(bytes):
+    log = None
+
+    def decode(self, encoding="utf-8", errors="strict"):
+        if _SpyBytes.log is not None:
+            _SpyBytes.log.append(encoding)
+        return bytes(self).decode(encoding, errors)
+
+
+class _SpyIO(io.BytesIO):
+    def read(self, *a):
+        return _SpyBytes(super().read(*a))
+
+
+def observed_encoding(H, raw):
+    """the encoding name read_html hands to bytes.decode for this input (first attempt)"""
+    _SpyBytes.log = []
+    try:
+        list(H.read_html(_SpyIO(raw)))
+        log = _SpyBytes.log
+    finally:
+        _SpyBytes.log = None
+    if log:
+        return log[0]
+    return "utf-8" if raw.startswith(b"\xef\xbb\xbf") else None     # content[3:] is a plain bytes object
+
+
+def sniff_correspondence(ctx, H):
+    rng = ctx.rng
+    pieces = [b"<meta", b"<META", b"<MeTa ", b"<meta\n", b" charset=", b"charset=", b"CHARSET=", b" http-equiv=\"Content-Type\" content=\"text/html; charset=",
+              b"\"", b"'", b">", b"/>", b" ", b"\t", b"utf-8", b"UTF-16", b"latin-1", b"cp037", b"utf-7", b"UTF_7", b"utf7", b"x", b"<!--", b"-->", b"--",
+              b"<script>", b"</script>", b"<SCRIPT ", b"</Script >", b"</script\n>", b"<scripts>", b"<script", b"<style>", b"</style>", b"<noscript>",
+              b"</noscript>", b"<iframe ", b"</iframe>", b"<object>", b"</object x>", b"<applet>", b"</applet>", b"</", b"<",
+              b"<p>t</p>", b"=", b"charset", b"<metadata>", b"<m", b"\xe9", b"\xff", b";", b" name=\"a\"", b"_", b"<!-", b"<!--->", b"\n"]
+    heads = [b"", b"<meta charset=utf-8>", b"<metacharset=utf-8>", b"<meta charset=>", b"<meta charset=\"\">", b"<meta charset= x>",
+             b"<meta charset=a charset=b>", b"<meta charset=a charset= >", b"<meta a>charset=x", b"<meta <meta charset='k'>",
+             b"<meta charset=\"a'b>", b"\xef\xbb\xbf<meta charset=latin-1>", b"\xff\xfe<\x00", b"\xfe\xff\x00<", b"\xef\xbb", b"<meta charset=caf\xe9>",
+             b"<!-- <meta charset=\"utf-16\"> --><p>x</p>", b"<script>var h='<meta charset=cp037>';</script>", b"<meta charset=utf-16>",
+             b"<meta charset=utf-7>", b"<meta charset=UTF_7>", b"<meta charset=cp037>", b"<meta \xe9 charset=latin-1>", b"<meta charset=latin-1>",
+             b"<!--><meta charset=latin-1>-->", b"<!-- x --<meta charset=latin-1>", b"<scripty><meta charset=latin-1>", b"<script/><meta charset=latin-1>",
+             b"<script><meta charset=latin-1></scripty></script ><meta charset=cp1252>", b"<object><meta charset=latin-1></OBJECT\t\n>x<meta charset=koi8-r>",
+             b"<noscript><script></noscript><meta charset=latin-1></script><meta charset=cp1252>", b"<style", b"<!--",
+             b"x" * 8180 + b"<meta charset=latin-1>", b"x" * 8192 + b"<meta charset=latin-1>", b"x" * 8170 + b"<meta charset=latin-1>",
+             b"<!--" + b"x" * 8190 + b"--><meta charset=latin-1>", b"x" * 8186 + b"<script><meta charset=latin-1>"]
+    for _ in range(ctx.n(500, 5000)):
+        heads.append(b"".join(rng.choice(pieces) for _ in range(rng.randint(1, 10))))
+    skip_re = getattr(H, "_RE_SNIFF_SKIP_BYTES", None)
+    cases, info = [], []
+    bl = lambda b: "[" + ";".join(str(x) for x in b) + "]%N"
+    for raw in heads:
+        head = skip_re.sub(b"", raw[:8192]) if skip_re is not None else raw[:8192]
+        m = H._RE_CHARSET_ATTR_BYTES.search(head)
+        compat = False
+        if m is not None:
+            declared = m.group(1).decode("ascii", errors="ignore")
+            try:
+                compat = m.group(0).decode(declared) == m.group(0).decode("ascii")
+            except (UnicodeDecodeError, LookupError):
+                compat = False
+            except Exception:  # noqa  (e.g. NUL in the name: another property's concern)
+                continue
+        try:
+            enc = observed_encoding(H, raw)
+        except Exception:  # noqa
+            continue
+        if enc is None:
+            continue
+        grp = "None" if m is None else f"(Some ({bl(m.group(0))}, {bl(m.group(1))}))"
+        cases.append(f"({bl(raw)}, {bl(head)}, {grp}, {coq_bool(compat)}, {coq_str(enc)})")
+        info.append(raw)
+        ctx.case(("sniff", raw), b"<meta" in raw.lower(), kind="sniff")
+    pre = "From S2T Require Import Lib.PyStr C17.Sniff.\n"
+    ok, failing, log = coq_eval_shards(ctx, "sniff", pre, "sniff_case", cases, shard=250,
+                                       ty="list N * list N * option (list N * list N) * bool * list N")
+    ctx.traces += len(cases)
+    ctx.disagreements += len(failing)
+    ctx.obligation("correspondence:Sniff.strip == _RE_SNIFF_SKIP_BYTES.sub, Sniff.search2 == _RE_CHARSET_ATTR_BYTES.search (groups 0, 1), "
+                   "Sniff.choose == the encoding read_html decodes with", ok and not failing,
+                   (f"{len(failing)} disagreements of {len(cases)}, first: {info[failing[0]][:160] if failing else b''!r} " + log)[:1200])
+
+
 # ----------------------------------------------------------------------------- chapters are independent
 HAZARDS = {
     # how a chapter may END: (kind, markup appended to the body; the document is then truncated)
@@ -1562,19 +1644,30 @@ def run(ctx):
         "quantified in the theorems (any function of the builder state); whitespace normalisation of EPUB cells is a Section variable",
         "modelled by hand, tied by differential runs on the real handler objects: _HtmlTreeBuilder.handle_*, _XhtmlTextExtractor.handle_*",
         "_skip_tag is compared only while skip_depth > 0 (dead otherwise)",
+        "modelled by hand (C17/Sniff.v), tied by a differential run: read_html's BOM test, the skip regex _RE_SNIFF_SKIP_BYTES (as a "
+        "one-pass scanner), the byte regex _RE_CHARSET_ATTR_BYTES (leftmost match, greedy [^>]+ with backtracking, groups 0 and 1), "
+        "window 8192, UTF-7 exclusion; bytes.decode / the codecs (ASCII-compatibility probe) are an oracle recorded per case",
+        "outside the model, sampled only: rendering of the tree (_process_node whitespace/table formatting), EPUB get_text clean-up, "
+        "MIME decoding of MHTML parts (email package), zip/OPF handling of EPUB, msg_parser (stubbed as an oracle)",
+        "not asserted (belongs to C02): trailing visible text after the last tag is never delivered because no path calls close(); "
+        "MHTML ignores the MIME part's charset parameter; a UTF-16 BOM stays in the text as U+FEFF",
     ]
     ctx.assumptions += ["events reach the handlers as html.parser delivers them (lower-cased tags, startend = Start;End)"]
     H, E = gen_tables(ctx)
 
     ctx.prove("C17/Props.v", ["C17/Proofs.vo"], expected=[
         "C17_html_noninterference", "C17_html_outputs_equal", "C17_html_void_removable", "C17_html_comment_inert",
-        "C17_html_text_preserved", "C17_html_all_text_without_removable", "C17_html_text_monotone",
+        "C17_html_text_preserved", "C17_html_all_text_without_removable", "C17_html_text_monotone", "C17_html_tree_has_no_removable_node",
         "C17_epub_noninterference", "C17_epub_outputs_equal", "C17_epub_void_removable", "C17_epub_comment_inert"])
     ctx.prove("C17/Inst.v", ["Gen/C17Tables.vo", "C17/Corr.vo", "C17/Proofs.vo"], expected=[
         "C17_html_tables_wf", "C17_epub_tables_wf", "C17_statement_tags_removed",
         "C17_html_void_matches_standard", "C17_epub_void_matches_standard", "C17_hypotheses_satisfiable",
         "C17_remove_sets_agree"])
 
+    ctx.prove("C17/SniffProps.v", ["C17/SniffProofs.vo"], expected=[
+        "C17_sniff_comment_inert", "C17_sniff_unterminated_comment_inert", "C17_sniff_removed_element_inert_partial",
+        "C17_sniff_hypotheses_nonvacuous", "C17_sniff_utf7_never", "C17_sniff_bom_decides", "C17_sniff_beyond_window_inert",
+        "C17_sniff_prefix_removed_markup_inert_refuted"])
     reuse_facts(ctx)
     table_inventory(ctx, H, E)
     tokenizer_facts(ctx, H, E)
@@ -1583,6 +1676,7 @@ def run(ctx):
     protocol_correspondence(ctx, H, E)
     event_oracle(ctx, H, E)
     text_level(ctx, H, E)
+    sniff_correspondence(ctx, H)
     charset_level(ctx, H, E)
     chapters_independent(ctx, H, E)
 
@@ -1599,6 +1693,10 @@ META = {
                   "every output is identical. Void removable (<embed>, <embed/>) and comments are inert at any position; nested "
                   "segments inside a removed element are inert. The tokenizer (text -> events) and the tree -> text renderer are "
                   "oracles; the composition is validated on generated documents only.",
-    "level_note": "Trusted: Coq kernel+VM; G-dump printer; hand-written model of the handlers (tied by exhaustive/random event-level "
-                  "differential runs comparing the complete object state); html.parser tokenizer and the renderers are oracles.",
+    "level_note": "Trusted: Coq kernel+VM; G-dump printer; hand-written models of the handlers and of the encoding decision (tied by "
+                  "exhaustive/random differential runs comparing the complete object state / the regex match and the decode call); "
+                  "html.parser tokenizer, codecs and the renderers are oracles (tokenizer configuration, call protocol and table "
+                  "inventory are fail-closed obligations). Cannot be modelled: third-party MIME/zip/msg_parser behaviour, codec tables. "
+                  "Encoding decision: comments proved inert at full strength inside the window, the six removed elements under "
+                  "no_lt_slash (gap: bodies with other end-tag openers, upper-case names, elements open at the window end - differential only).",
 }
